@@ -89,9 +89,15 @@ impl Monitor for C09 {
         for m in &must {
             let attempts: Vec<_> = ctx.client_out.iter().filter(|c| c.bytes == **m).collect();
             let delivered = attempts.iter().any(|c| c.result.is_ok());
+            // Excused only if the last-resort path (the awaited send of the relay list, or the
+            // instant-forward task) was attempted and hit an injected hard error; a failure of the
+            // inline fast path alone does not excuse anything, the relay list still has to deliver.
             let hard_fault = attempts
                 .iter()
-                .any(|c| matches!(c.result, Err(k) if k != std::io::ErrorKind::WouldBlock));
+                .any(|c| c.via != "try_send_to" && matches!(c.result, Err(k) if k != std::io::ErrorKind::WouldBlock));
+            if attempts.iter().any(|c| c.via == "try_send_to" && matches!(c.result, Err(k) if k != std::io::ErrorKind::WouldBlock)) {
+                out.probe("c09.fast_path_hard_error");
+            }
             if !delivered {
                 if hard_fault {
                     out.probe("c09.excused_by_client_socket_error");
